@@ -21,6 +21,10 @@ pub struct Scenario {
     /// in-Sim only: history of a second host with the same path names (independent tree)
     #[serde(default)]
     pub ops2: Vec<FsOp>,
+    /// in-Sim only: the host software returns Ok(()) when it reaches a crash point (its handles are
+    /// dropped, the host stops being scheduled) instead of staying alive until Sim::crash
+    #[serde(default)]
+    pub finish_before_crash: bool,
 }
 
 pub struct C07;
@@ -141,14 +145,14 @@ impl Property for C07 {
             guard_step(&mut gs, &op, &mo);
             ops.push(op);
         }
-        Scenario { guarded, knobs, ops, in_sim: false, ops2: vec![] }
+        Scenario { guarded, knobs, ops, in_sim: false, ops2: vec![], finish_before_crash: false }
     }
 
     /// Fault enumeration: a crash after every prefix of the history.
     fn variants(base: &Scenario, _tier: Tier) -> Vec<Scenario> {
         (1..=base.ops.len())
             .filter(|k| !matches!(base.ops[*k - 1], FsOp::Crash))
-            .map(|k| Scenario { guarded: base.guarded, knobs: base.knobs.clone(), ops: base.ops[..k].to_vec(), in_sim: false, ops2: vec![] })
+            .map(|k| Scenario { guarded: base.guarded, knobs: base.knobs.clone(), ops: base.ops[..k].to_vec(), in_sim: false, ops2: vec![], finish_before_crash: false })
             // the same fault placements once more inside a running simulation (Sim::crash / Sim::bounce),
             // with the full history running on a second host with identical path names
             .chain((1..=base.ops.len()).filter(|k| !matches!(base.ops[*k - 1], FsOp::Crash) && (*k % 3 == base.ops.len() % 3)).map(|k| Scenario {
@@ -157,6 +161,7 @@ impl Property for C07 {
                 ops: base.ops[..k].to_vec(),
                 in_sim: true,
                 ops2: base.ops.clone(),
+                finish_before_crash: (k + base.ops.len()) % 2 == 0,
             }))
             .collect()
     }
@@ -208,7 +213,7 @@ impl Property for C07 {
     fn shrink(sc: &Scenario) -> Vec<Scenario> {
         let mut out: Vec<Scenario> = c10::shrink_ops(&sc.ops)
             .into_iter()
-            .map(|ops| Scenario { guarded: sc.guarded, knobs: sc.knobs.clone(), ops, in_sim: sc.in_sim, ops2: sc.ops2.clone() })
+            .map(|ops| Scenario { guarded: sc.guarded, knobs: sc.knobs.clone(), ops, in_sim: sc.in_sim, ops2: sc.ops2.clone(), finish_before_crash: sc.finish_before_crash })
             .filter(|c| !sc.guarded || first_known_k(&c.ops, c.knobs.block_size > 0).is_none())
             .collect();
         if !sc.ops2.is_empty() {
@@ -221,7 +226,10 @@ impl Property for C07 {
             }
         }
         if sc.in_sim {
-            out.push(Scenario { in_sim: false, ops2: vec![], ..sc.clone() });
+            out.push(Scenario { in_sim: false, ops2: vec![], finish_before_crash: false, ..sc.clone() });
+            if sc.finish_before_crash {
+                out.push(Scenario { finish_before_crash: false, ..sc.clone() });
+            }
         }
         if sc.knobs.sync_pct > 0 {
             out.push(Scenario { knobs: FsKnobs { sync_pct: 0, ..sc.knobs.clone() }, ..sc.clone() });
@@ -394,6 +402,7 @@ enum HostEvent {
 }
 
 struct HostShared {
+    finish_before_crash: bool,
     ops: Vec<FsOp>,
     cursor: std::cell::Cell<usize>,
     want_crash: std::cell::Cell<bool>,
@@ -416,6 +425,12 @@ async fn host_program(sh: std::rc::Rc<HostShared>) -> turmoil::Result {
         match &sh.ops[i] {
             FsOp::Crash => {
                 sh.want_crash.set(true);
+                if sh.finish_before_crash {
+                    // the software ends on its own: handles are dropped, the host is no longer
+                    // scheduled; Sim::crash must still roll the filesystem back
+                    drop(ops);
+                    return Ok(());
+                }
                 break;
             }
             FsOp::Advance { ms } => {
@@ -457,6 +472,7 @@ fn run_in_sim(sc: &Scenario, keep: bool) -> Report {
         .iter()
         .map(|l| {
             Rc::new(HostShared {
+                finish_before_crash: sc.finish_before_crash,
                 ops: l.clone(),
                 cursor: std::cell::Cell::new(0),
                 want_crash: std::cell::Cell::new(false),
@@ -556,6 +572,9 @@ fn run_in_sim(sc: &Scenario, keep: bool) -> Report {
         rep.nontrivial |= j.nontrivial;
     }
     rep.probes.inc("in_sim_run");
+    if sc.finish_before_crash {
+        rep.probes.inc("in_sim_host_finished_before_crash");
+    }
     if shared.len() > 1 {
         rep.probes.inc("in_sim_two_hosts_same_paths");
     }
